@@ -83,6 +83,37 @@ def quote(name: str, style: str='|') -> str:
         return name
 
 
+_string_escape_prog = re.compile(r"\\u(?:\{([0-2][0-9a-fA-F]{4}|[0-9a-fA-F]{1,4})\}|([0-9a-fA-F]{4}))")
+
+def smtlib_string_literal(value: str) -> str:
+    """Returns the SMT-LIB string literal denoting value.
+
+    The double quote is doubled; characters outside the printable
+    ASCII range, and a backslash that would otherwise start an escape
+    sequence, are written as \\u{...} escapes.
+    """
+    res = []
+    for i, c in enumerate(value):
+        code = ord(c)
+        if c == '"':
+            res.append('""')
+        elif code < 32 or code > 126 or (c == "\\" and value[i+1:i+2] == "u"):
+            res.append("\\u{%x}" % code)
+        else:
+            res.append(c)
+    return '"%s"' % "".join(res)
+
+
+def smtlib_string_value(text: str) -> str:
+    """Returns the string denoted by the content of an SMT-LIB string literal.
+
+    The escape sequences \\ud3d2d1d0 and \\u{d0} ... \\u{d4d3d2d1d0} of the
+    theory of strings denote the character with that code.
+    """
+    return _string_escape_prog.sub(lambda m: chr(int(m.group(1) or m.group(2), 16)),
+                                   text)
+
+
 # utility function to narrow a type from Optional[T] to [T] without having to assert it is not None
 def assert_not_none(value: Optional[T]) -> T:
     assert value is not None, "Value: '%s' must not be None" % str(value)
